@@ -56,6 +56,8 @@ def chunk_table(m):
 
 def bounds_ok(rows, cmin, cmax):
     effmax = min(AVG * 4, cmax)
+    if cmin > effmax:
+        effmax = cmin          # a configured minimum above the automatic maximum becomes the forced chunk size
     effmin = min(max(AVG // 4, cmin), effmax)
     for d, cl, ul in rows[:-1]:
         if ul > effmax:
